@@ -115,6 +115,21 @@ def run(ctx: Ctx) -> None:
                 why.append("__attribute__ must consume two '(' and pass both to the balanced consumer")
         ctx.ob("R13.3", f"parser:CxxParser.{fname}|openers handed on, result unused", ok, msg="; ".join(why), node=fn, mod=mod)
 
+    # ---------------------------------------------------------------- R13.5
+    ctx.rule("R13.5", "regions whose content is an arbitrary expression/statement soup (static_assert, bodies, ctor initializers) are skipped by the plain bracket counter, not by the consumer that interprets '<' '>' '[[' ']]'", minimum=4)
+    heuristic = "'>'" in norm(pm.fn("_consume_balanced_tokens"))
+    for fname, what in (("_consume_static_assert", "static_assert condition"), ("_parse_fn_end", "function body"), ("_parse_method_end", "method body"), ("_discard_ctor_initializer", "constructor initializer / body")):
+        fn = pm.fn(fname)
+        uses_counter = any(pm.resolve(fname, c) == ("self", "_discard_contents") for c in walk_local(fn) if isinstance(c, ast.Call))
+        balanced = [c for c in walk_local(fn) if isinstance(c, ast.Call) and pm.resolve(fname, c) == ("self", "_consume_balanced_tokens")]
+        ok = uses_counter
+        why = f"{fname} no longer skips the {what} with _discard_contents"
+        if fname == "_consume_static_assert" and balanced and heuristic:
+            ok = False
+            why = ("the static_assert condition is consumed with _consume_balanced_tokens, which treats '<' and '>' as brackets (with a tolerance heuristic) and ']]' as one token: "
+                   "a condition such as `N < 4 && (M > 2)` or `sizeof(t[i[0]])` ends the region early or raises")
+        ctx.ob("R13.5", f"parser:CxxParser.{fname}|{what} skipped by the bracket counter", ok, msg=why, node=fn, mod=mod, nontrivial=False)
+
     # ---------------------------------------------------------------- R13.4
     ctx.rule("R13.4", "_consume_balanced_tokens: keeps every token, pushes the closer of every opener, LIFO stack, returns only when empty", minimum=4)
     fs, steps = linear.analyse(pm, "_consume_balanced_tokens", {"NEWLINE"})
